@@ -32,19 +32,23 @@ theorem JG_append (F : FOps α) (v : String) :
 
 /-! ### the degree map as a coefficient function -/
 
+section Rep
+set_option linter.unusedSectionVars false
+variable {κ : Type} [BEq κ] [LawfulBEq κ] [DecidableEq κ]
+
 /-- `m` represents the coefficient function `φ` -/
-def Rep (m : List (Nat × α)) (φ : Nat → K) : Prop :=
+def Rep (m : List (κ × α)) (φ : κ → K) : Prop :=
   (m.map (·.1)).Nodup ∧ (∀ t ∈ m, L.valid t.2 ∧ L.embed t.2 = φ t.1) ∧
     ∀ i, i ∉ m.map (·.1) → φ i = 0
 
-theorem rep_nil : Rep L [] (fun _ => 0) := ⟨by simp, by simp, fun _ _ => rfl⟩
+theorem rep_nil : Rep L ([] : List (κ × α)) (fun _ => 0) := ⟨by simp, by simp, fun _ _ => rfl⟩
 
-theorem Rep.congr {m : List (Nat × α)} {φ ψ : Nat → K} (h : Rep L m φ) (e : ∀ i, φ i = ψ i) :
+theorem Rep.congr {m : List (κ × α)} {φ ψ : κ → K} (h : Rep L m φ) (e : ∀ i, φ i = ψ i) :
     Rep L m ψ := by
   have : φ = ψ := funext e
   rw [← this]; exact h
 
-theorem rep_mapAdd {m : List (Nat × α)} {φ : Nat → K} (h : Rep L m φ) (d : Nat) {c : α}
+theorem rep_mapAdd {m : List (κ × α)} {φ : κ → K} (h : Rep L m φ) (d : κ) {c : α}
     (hc : L.valid c) :
     Rep L (UPoly.mapAdd F m d c) (fun i => φ i + if i = d then L.embed c else 0) := by
   obtain ⟨hnd, hval, hzero⟩ := h
@@ -56,7 +60,7 @@ theorem rep_mapAdd {m : List (Nat × α)} {φ : Nat → K} (h : Rep L m φ) (d :
       exact ⟨x, hx, by simp⟩
     rw [hany]
     simp only [if_true]
-    have hkeys : (m.map fun (x : Nat × α) => match x with
+    have hkeys : (m.map fun (x : κ × α) => match x with
         | (k', v) => if k' == d then (k', F.add v c) else (k', v)).map (·.1) = m.map (·.1) := by
       rw [List.map_map]
       apply List.map_congr_left
@@ -103,13 +107,13 @@ theorem rep_mapAdd {m : List (Nat × α)} {φ : Nat → K} (h : Rep L m φ) (d :
       simp [hzero i hi.1, this]
 
 /-- the contribution of a term list to the coefficient of degree `i` -/
-noncomputable def S (l : List (α × Nat)) (i : Nat) : K :=
+noncomputable def S (l : List (α × κ)) (i : κ) : K :=
   (l.map fun t => if i = t.2 then L.embed t.1 else 0).sum
 
-theorem S_append (l1 l2 : List (α × Nat)) (i : Nat) : S L (l1 ++ l2) i = S L l1 i + S L l2 i := by
+theorem S_append (l1 l2 : List (α × κ)) (i : κ) : S L (l1 ++ l2) i = S L l1 i + S L l2 i := by
   simp [S]
 
-theorem S_nodup (g : Nat → α) : ∀ (ds : List Nat), ds.Nodup → ∀ i,
+theorem S_nodup (g : κ → α) : ∀ (ds : List κ), ds.Nodup → ∀ i,
     S L (ds.map fun d => (g d, d)) i = if i ∈ ds then L.embed (g i) else 0 := by
   intro ds
   induction ds with
@@ -126,8 +130,8 @@ theorem S_nodup (g : Nat → α) : ∀ (ds : List Nat), ds.Nodup → ∀ i,
       · simp [h1, h2]
       · simp [h1, h2]
 
-theorem rep_foldl : ∀ (l : List (α × Nat)), (∀ t ∈ l, L.valid t.1) →
-    ∀ {m : List (Nat × α)} {φ : Nat → K}, Rep L m φ →
+theorem rep_foldl : ∀ (l : List (α × κ)), (∀ t ∈ l, L.valid t.1) →
+    ∀ {m : List (κ × α)} {φ : κ → K}, Rep L m φ →
     Rep L (l.foldl (fun o t => UPoly.mapAdd F o t.2 t.1) m) (fun i => φ i + S L l i) := by
   intro l
   induction l with
@@ -139,6 +143,8 @@ theorem rep_foldl : ∀ (l : List (α × Nat)), (∀ t ∈ l, L.valid t.1) →
     refine this.congr L (fun i => ?_)
     simp only [S, List.map_cons, List.sum_cons]
     ring
+
+end Rep
 
 /-! ### rebuilding from a represented map -/
 
